@@ -30,6 +30,31 @@ pub fn dispatch(op: &str, kind: &str, a: &mut Args) -> Option<String> {
             let xs = a.list(|a| a.f());
             tok(&xs.iter().logsumexp())
         }
+        // ---- C14: special functions and quadrature tables
+        "gauss_legendre_table" => {
+            let n = a.n() as usize;
+            let (w, x) = rv::misc::gauss_legendre_table(n);
+            format!("{} {}", tok(&w), tok(&x))
+        }
+        "gauss_legendre_quadrature_monomial" => {
+            let n = a.n() as usize;
+            let k = a.n() as i32;
+            let (lo, hi) = (a.f(), a.f());
+            tok(&rv::misc::gauss_legendre_quadrature(|x: f64| x.powi(k), n, (lo, hi)))
+        }
+        "bessel_iv" => {
+            let (v, z) = (a.f(), a.f());
+            match rv::misc::bessel::bessel_iv(v, z) {
+                Ok(r) => tok(&r),
+                Err(e) => err_tok(&e),
+            }
+        }
+        "ln_gammafn" => tok(&rv::misc::ln_gammafn(a.f())),
+        "gammafn" => tok(&rv::misc::gammafn(a.f())),
+        "mvgamma" => {
+            let p = a.n() as usize;
+            tok(&rv::misc::mvgamma(p, a.f()))
+        }
         // ---- C09 probes (call-history independence of equality / queries)
         "c09.mixture_eq_after_query" => {
             let m1 = Mixture::new(vec![0.25, 0.75], vec![Gaussian::new_unchecked(0.0, 1.0), Gaussian::new_unchecked(1.0, 2.0)]).unwrap();
